@@ -1178,7 +1178,12 @@ pub fn run_c04(ctx: &mut Ctx) {
             }
             _ => {}
         }
-        let p = msg_to_packet(&m);
+        // half of the packets carry leftovers of earlier API calls (cleared option keys with empty
+        // value lists, replaced lists): the wire image, and therefore the limit decision, is the same
+        let p = if case % 2 == 0 { msg_to_packet(&m) } else { build_packet(&m, &mut r).0 };
+        if case % 2 == 1 {
+            rep.count("packets_with_api_leftovers");
+        }
         c04_one(rep, &m, &p, label, maxsz, &mut r, seed, shard, case);
     }
     // oversize option values: must be refused, never emitted with a wrong length
